@@ -301,7 +301,8 @@ theorem runOp_normalised (doc : Document) (inputs : Vars) (w : World) (fuel : Na
     rw [hv] at hgv
     rw [hgv]
     simp only []
-    have hfr : FragsOK c vars' := by
+    have hfr : FragsRel c vars' c.frags := by
+      apply fragsRel_same
       intro n tc sel0 hfrag x hx
       obtain ⟨nm, ds, l, hm⟩ := frag_mem c n tc sel0 hfrag
       have hm' : (n, Definition.fragment nm tc ds sel0 l) ∈ doc.defs.filterMap fragOf := by
@@ -317,9 +318,9 @@ theorem runOp_normalised (doc : Document) (inputs : Vars) (w : World) (fuel : Na
       rw [hdd]
       simp only [defVars, List.mem_append]
       exact Or.inr hx
-    have hcol := collect_sim c vars' hfr root sel sel' [] [] [] hrel trivial
-    have hsim := (sim_all c vars' hfr fuel).1 false root .nil [] _ _ [] St.empty hcol.1 (hu v hv)
-    have hc' : ctx' c vars' = ⟨s, doc.fragments, extendVars s st.entries v, w⟩ := rfl
+    have hcol := collect_sim c vars' c.frags hfr rfl root sel sel' [] [] [] hrel trivial
+    have hsim := (sim_all c vars' c.frags hfr rfl fuel).1 false root .nil [] _ _ [] St.empty hcol.1 (hu v hv)
+    have hc' : ctx' c vars' c.frags = ⟨s, doc.fragments, extendVars s st.entries v, w⟩ := rfl
     rw [hc'] at hsim
     rw [hsim]
 
@@ -451,5 +452,222 @@ theorem normalized_transparent_core (doc doc' : Document) (opName : String) (inp
               exfalso; apply hne; rfl
 
 end Final
+
+/-! ## the normalised request inherits `ExecUniform` (needed to apply location independence to normalised documents) -/
+
+section Uniform
+variable (s : Schema) (hcc : customLti s) (hsch : SchemaOK s)
+include hcc hsch
+
+/-- facts about the normalised operation when the client's variables coerce: the variable map, the fragment relation,
+related root groups -/
+theorem norm_facts (doc : Document) (inputs : Vars) (w : World)
+    (op : OpType) (name : Option Name) (vars : List VarDef) (dirs : List Directive) (sel : SelectionSet) (loc : Loc)
+    (root : String) (hmem : Definition.operation op name vars dirs sel loc ∈ doc.defs) (hlex : LexSet sel)
+    (v : Vars) (hv : getVariableValues s vars inputs = .ok v) :
+    let st := (normSet s root sel (initState vars (docVarNames doc))).2
+    let sel' := (normSet s root sel (initState vars (docVarNames doc))).1
+    let c : Ctx := ⟨s, doc.fragments, v, w⟩
+    let vars' := extendVars s st.entries v
+    getVariableValues s (vars ++ st.entries.map mkVarDef) (st.synth ++ inputs) = .ok vars' ∧
+    FragsRel c vars' c.frags ∧
+    GRel c vars' root (collect c root sel ([], [])).1 (collect (ctx' c vars' c.frags) root sel' ([], [])).1 := by
+  intro st sel' c vars'
+  have h0 : NamesOK (initState vars (docVarNames doc)) := by
+    unfold NamesOK
+    exact ⟨by intro e he; simp [initState] at he, by simp [initState]⟩
+  obtain ⟨hnames, htaken⟩ := normSet_namesOK s sel root (initState vars (docVarNames doc)) h0
+  have hfresh : ∀ e ∈ st.entries, e.name ∉ userVarNames vars ∧ e.name ∉ docVarNames doc := by
+    intro e he
+    have := (hnames.1 e he).1
+    rw [htaken] at this
+    simpa [initState, List.mem_append, not_or] using this
+  have hnd := hnames.2
+  have hre : Realises s vars' st.entries := realises_extendVars s st.entries v hnd
+  have hAg : ∀ x ∈ docVarNames doc, Ag v vars' x := by
+    intro x hx
+    exact lookupD_extendVars_other s st.entries v x (fun e he heq => (hfresh e he).2 (heq ▸ hx))
+  have hsetvars : ∀ x ∈ setVars sel, x ∈ docVarNames doc := by
+    intro x hx
+    apply defVars_subset doc _ hmem
+    simp only [defVars, List.mem_append]
+    exact Or.inr hx
+  have hwalk := normSet_rel s hcc hsch v vars' sel root (initState vars (docVarNames doc)) st.entries
+    (by intro e he; simp [initState] at he) hlex (fun x hx => hAg x (hsetvars x hx))
+    ⟨[], by simp [st]⟩ hre
+  obtain ⟨hrel, hesOK, _⟩ := hwalk
+  have hok : ∀ e ∈ st.entries, isInputType s e.type = true ∧ isValidInputValue s e.type (lti e.lit) = true := by
+    intro e he
+    obtain ⟨h1, h2, h3, h4, _, _⟩ := hesOK e he
+    exact ⟨h4, (lti_agree s hcc e.type e.lit [] h1 h2 h3).1⟩
+  have hgv := getVariableValues_normalised s vars st.entries inputs (fun e he => (hfresh e he).1) hnd hok
+  rw [hv] at hgv
+  have hfr : FragsRel c vars' c.frags := by
+    apply fragsRel_same
+    intro n tc sel0 hfrag x hx
+    obtain ⟨nm, ds, l, hm⟩ := frag_mem c n tc sel0 hfrag
+    have hm' : (n, Definition.fragment nm tc ds sel0 l) ∈ doc.defs.filterMap fragOf := by
+      rw [← fragments_eq]; exact hm
+    obtain ⟨d, hd, hfo⟩ := List.mem_filterMap.mp hm'
+    have hdd : d = Definition.fragment nm tc ds sel0 l := by
+      cases d <;> simp [fragOf] at hfo
+      obtain ⟨_, h2, h3, h4, h5, h6⟩ := hfo
+      subst h2 h3 h4 h5 h6
+      rfl
+    apply hAg
+    apply defVars_subset doc d hd
+    rw [hdd]
+    simp only [defVars, List.mem_append]
+    exact Or.inr hx
+  exact ⟨hgv, hfr, (collect_sim c vars' c.frags hfr rfl root sel sel' [] [] [] hrel trivial).1⟩
+
+/-- **the normalised request inherits `ExecUniform`** -/
+theorem execUniform_normalised (doc doc' : Document) (opName : String) (inputs synth : Vars) (w : World)
+    (hnorm : normalizeDocument s doc opName = .ok doc' synth) (hlex : DocLex doc)
+    (hu : ExecUniform s doc opName inputs w) : ExecUniform s doc' opName (synth ++ inputs) w := by
+  unfold normalizeDocument at hnorm
+  rcases hp : pickOp opName doc.defs 0 (none, 0) with ⟨oi, n⟩
+  rw [hp] at hnorm
+  cases oi with
+  | none => cases hnorm
+  | some i =>
+    simp only [] at hnorm
+    split at hnorm
+    · cases hnorm
+    · cases hdef : doc.defs[i]? with
+      | none => rw [hdef] at hnorm; cases hnorm
+      | some opDef =>
+        rw [hdef] at hnorm
+        simp only [] at hnorm
+        cases hroot : s.rootFor (opTypeOf opDef) with
+        | none => rw [hroot] at hnorm; cases hnorm
+        | some root =>
+          rw [hroot] at hnorm
+          simp only [] at hnorm
+          split at hnorm
+          · simp only [DocOut.ok.injEq] at hnorm
+            obtain ⟨rfl, rfl⟩ := hnorm
+            simpa using hu
+          · rename_i hne
+            simp only [DocOut.ok.injEq] at hnorm
+            obtain ⟨hdoc', hsynth⟩ := hnorm
+            have hmem : opDef ∈ doc.defs := List.mem_of_getElem? hdef
+            cases opDef with
+            | operation op name vars dirs sel loc =>
+              have hroot' : s.rootFor op.toString = some root := hroot
+              have hshape : (normalizeOperation s root (docVarNames doc) (.operation op name vars dirs sel loc)).1 =
+                  .operation op name (vars ++ (normSet s root sel (initState vars (docVarNames doc))).2.entries.map mkVarDef) dirs
+                    (normSet s root sel (initState vars (docVarNames doc))).1 loc := rfl
+              have hsyn : synth = (normSet s root sel (initState vars (docVarNames doc))).2.synth := hsynth.symm
+              have hfrags : doc'.fragments = doc.fragments := by
+                rw [← hdoc', fragments_eq, fragments_eq]
+                exact filterMap_replaceAt fragOf doc.defs i _ _ hdef rfl (by rw [hshape]; rfl)
+              have hall := all2_replaceAt (.operation op name vars dirs sel loc)
+                (normalizeOperation s root (docVarNames doc) (.operation op name vars dirs sel loc)).1 doc.defs i hdef
+              rw [hshape] at hall
+              have hdefs' : doc'.defs = replaceAt doc.defs i
+                  (.operation op name (vars ++ (normSet s root sel (initState vars (docVarNames doc))).2.entries.map mkVarDef) dirs
+                    (normSet s root sel (initState vars (docVarNames doc))).1 loc) := by
+                rw [← hdoc', hshape]
+              intro op2 name2 vars2 dirs2 sel2 loc2 root2 v2 hsel2 hroot2 hv2
+              unfold selectOperation at hsel2
+              rw [hdefs'] at hsel2
+              rw [hfrags]
+              rcases go_sim opName op name vars _ dirs sel _ loc doc.defs _ none none hall trivial with
+                ⟨e, h1, h2⟩ | ⟨r, r', h1, h2, hq⟩
+              · rw [h2] at hsel2; cases hsel2
+              · rw [h2] at hsel2
+                cases r' with
+                | none => cases hsel2
+                | some d' =>
+                  simp only [Except.ok.injEq] at hsel2
+                  subst hsel2
+                  cases r with
+                  | none => cases hq
+                  | some d =>
+                    rcases hq with hsame | ⟨rfl, hnew⟩
+                    · -- another (unchanged) operation is the selected one
+                      subst hsame
+                      have hdm : Definition.operation op2 name2 vars2 dirs2 sel2 loc2 ∈ doc.defs := by
+                        rcases go_mem opName doc.defs none _ h1 with h | h
+                        · exact h
+                        · cases h
+                      have hsel1 : selectOperation doc opName = .ok (.operation op2 name2 vars2 dirs2 sel2 loc2) := by
+                        unfold selectOperation; rw [h1]
+                      have hgv : getVariableValues s vars2 (synth ++ inputs) = getVariableValues s vars2 inputs := by
+                        unfold getVariableValues
+                        apply getVariableValuesGo_congr_inputs
+                        intro vd hvd
+                        apply lookupD_append_not_mem
+                        intro p hp
+                        have h0 : NamesOK (initState vars (docVarNames doc)) := by
+                          unfold NamesOK
+                          exact ⟨by intro e he; simp [initState] at he, by simp [initState]⟩
+                        obtain ⟨hnames, htaken⟩ := normSet_namesOK s sel root (initState vars (docVarNames doc)) h0
+                        rw [hsyn] at hp
+                        simp only [NState.synth] at hp
+                        obtain ⟨e, he, rfl⟩ := List.mem_map.mp hp
+                        have hnot := (hnames.1 e he).1
+                        rw [htaken] at hnot
+                        simp only [initState, List.mem_append, not_or] at hnot
+                        intro heq
+                        apply hnot.2
+                        have heq' : e.name = vd.var.value := heq
+                        rw [heq']
+                        apply defVars_subset doc _ hdm
+                        simp only [defVars, List.mem_append, List.mem_flatMap]
+                        exact Or.inl (Or.inl ⟨vd, hvd, List.mem_cons_self⟩)
+                      rw [hgv] at hv2
+                      exact hu op2 name2 vars2 dirs2 sel2 loc2 root2 v2 hsel1 hroot2 hv2
+                    · -- the normalised operation is the selected one
+                      simp only [Definition.operation.injEq] at hnew
+                      obtain ⟨rfl, rfl, rfl, rfl, rfl, rfl⟩ := hnew
+                      have hsel1 : selectOperation doc opName = .ok (.operation op2 name2 vars dirs2 sel loc2) := by
+                        unfold selectOperation; rw [h1]
+                      have hr2 : root2 = root := by rw [hroot'] at hroot2; exact (Option.some.inj hroot2).symm
+                      subst hr2
+                      -- the client's variables must have coerced, else the normalised ones would not
+                      cases hv : getVariableValues s vars inputs with
+                      | error e =>
+                        exfalso
+                        have h0 : NamesOK (initState vars (docVarNames doc)) := by
+                          unfold NamesOK
+                          exact ⟨by intro e he; simp [initState] at he, by simp [initState]⟩
+                        obtain ⟨hnames, htaken⟩ := normSet_namesOK s sel root2 (initState vars (docVarNames doc)) h0
+                        have : getVariableValues s
+                            (vars ++ (normSet s root2 sel (initState vars (docVarNames doc))).2.entries.map mkVarDef)
+                            (synth ++ inputs) = .error e := by
+                          unfold getVariableValues at hv ⊢
+                          rw [getVariableValuesGo_append]
+                          have hsame : getVariableValuesGo s (synth ++ inputs) vars [] = getVariableValuesGo s inputs vars [] := by
+                            apply getVariableValuesGo_congr_inputs
+                            intro d hd
+                            apply lookupD_append_not_mem
+                            intro p hp
+                            rw [hsyn] at hp
+                            simp only [NState.synth] at hp
+                            obtain ⟨e', he', rfl⟩ := List.mem_map.mp hp
+                            have hnot := (hnames.1 e' he').1
+                            rw [htaken] at hnot
+                            simp only [initState, List.mem_append, not_or] at hnot
+                            intro heq
+                            apply hnot.1
+                            have heq' : e'.name = d.var.value := heq
+                            rw [heq']
+                            exact List.mem_map.mpr ⟨d, hd, rfl⟩
+                          rw [hsame, hv]
+                        rw [this] at hv2; cases hv2
+                      | ok v =>
+                        obtain ⟨hgv, hfr, hgr⟩ := norm_facts s hcc hsch doc inputs w op2 name2 vars dirs2 sel loc2 root2 hmem
+                          (hlex op2 name2 vars dirs2 sel loc2 hmem) v hv
+                        rw [← hsyn, hv2] at hgv
+                        simp only [Except.ok.injEq] at hgv
+                        subst hgv
+                        have := HUAll_transfer ⟨s, doc.fragments, v, w⟩ _ doc.fragments hfr rfl root2 _ _ hgr
+                          (hu op2 name2 vars dirs2 sel loc2 root2 v hsel1 hroot' hv)
+                        exact this
+            | _ => exfalso; apply hne; rfl
+
+end Uniform
 
 end GqlModel.Normalize
